@@ -13,7 +13,7 @@ CONSTANTS MaxAr,      \* maximal arity enumerated with the full pool
 Names == <<"list", "vector", "cons", "concat", "vec", "nth", "first", "rest", "count", "empty?",
            "conj", "seq", "map", "apply", "take", "take-last", "drop", "drop-last", "subvec", "range",
            "hash-map", "assoc", "dissoc", "get", "contains?", "keys", "vals", "merge", "rename-keys",
-           "get-in", "assoc-in", "update", "set", "hash-set",
+           "get-in", "assoc-in", "update", "update-in", "set", "hash-set",
            "nil?", "true?", "false?", "symbol?", "keyword?", "string?", "number?", "list?", "vector?",
            "map?", "set?", "sequential?", "fn?", "macro?", "atom?">>
 
